@@ -171,6 +171,10 @@ def alt_field(d, fv, fobj, k):
                 return '/' + '/'.join(kit.bytes_of_runs(c['runs']).decode() for c in fv['comps'])
             if k % 3 == 1:
                 return stl.write_tlv([(7, [(kit.unlimbs(c['t']), kit.bytes_of_runs(c['runs'])) for c in fv['comps']])])
+        if k % 4 == 2:
+            return tuple(comps)                        # a tuple of encoded components is an Iterable of components too
+        if k % 4 == 3:
+            return tuple(memoryview(c) for c in comps)
         return [memoryview(c) if (k + i) % 2 else bytearray(c) for i, c in enumerate(comps)]
     if kind == 'uint':
         n = kit.unlimbs(fv['n'])
@@ -257,7 +261,7 @@ def views(schema, cls, mv, wire, back):
                 tags.append('%s/differs' % tag)
         except Exception as ex:  # noqa
             tags.append('%s/raises:%s' % (tag, type(ex).__name__))
-    for k in (0, 1, 2):
+    for k in (0, 1, 2, 3, 6, 7):
         attempt('alt-repr', lambda: bytes(to_python_alt(schema, cls, mv, k).encode()) == wire)
     attempt('alt-repr-announced', lambda: to_python_alt(schema, cls, mv, 1).encoded_length() == len(wire))
     attempt('reencode', lambda: bytes(back.encode()) == wire)
